@@ -26,7 +26,9 @@ func init() {
 }
 
 var litPool = []string{"v1", "a", "b", "books", "x", "shelves", "é", "a-b", "a.b", "x1", "name", "v", "ab", "é日", "日é"}
-var segPool = []string{"x", "y1", "42", "a", "é", "books", "v1", "null", "-7", "a=b", "x~y", "b", "shelves", "Z", "0", "12345", "a.b", "x1", "日本", "é日", "日é", "aé日b", "4294967295", "4294967296", "4294967297", "2147483647", "2147483648", "-2147483648", "-2147483649", "007", "1e3", "1.0"}
+var segPool = []string{"x", "y1", "42", "a", "é", "books", "v1", "null", "-7", "a=b", "x~y", "b", "shelves", "Z", "0", "12345", "a.b", "x1", "日本", "é日", "日é", "aé日b", "4294967295", "4294967296", "4294967297", "2147483647", "2147483648", "-2147483648", "-2147483649", "007", "1e3", "1.0",
+	// every character larking documents as valid in a path segment
+	"a;b", "a,b", "a@b", "a!b", "a$b", "a&b", "a'b", "(a)", "a*b", "a+b", "a=b;c", ";", "~"}
 var verbPool = []string{"read", "cancel", "x", "watch"}
 var kindPool = []string{"GET", "GET", "POST", "PUT", "DELETE", "PATCH", "*", "LOCK", "get"}
 
